@@ -17,4 +17,16 @@ elif kind=='once_ok':
     s=s.replace('#include <algorithm>','#include <algorithm>\n'+hdr,1)
     s=s.replace('namespace fixedmath \n{','namespace fixedmath \n{\n  static std::once_flag sq_once; static uint16_t sq_copy[256];\n',1)
     s=s.replace('value = as_fixed( square_root_tab(index) );','std::call_once(sq_once, []{ for(int k=0;k<256;++k) sq_copy[k]=square_root_tab(static_cast<uint8_t>(k)); });\n    value = as_fixed( sq_copy[index & 0xff] );',1)
+if kind in ('alloc_bad','alloc_ok'):
+    s=s.replace('#include <algorithm>','#include <algorithm>\n#include <new>\n',1)
+    fallback = 'return value;' if kind=='alloc_bad' else 'return as_fixed( ( static_cast<fixed_internal>( square_root_tab(static_cast<uint8_t>(index)) ) << (cl >> 1) ) >> 4 );'
+    s=s.replace('value = as_fixed( square_root_tab(index) );','''static uint16_t * heap_copy = nullptr;
+    uint16_t * tab = heap_copy;
+    if( tab == nullptr )
+      {
+      tab = new (std::nothrow) uint16_t[256];
+      if( tab != nullptr ) { for(int k=0;k<256;++k) tab[k] = square_root_tab(static_cast<uint8_t>(k)); heap_copy = tab; }   // publish after filling
+      }
+    if( tab == nullptr ) { %s }
+    value = as_fixed( tab[index & 0xff] );''' % fallback,1)
 open(p,'w').write(s)
